@@ -213,10 +213,19 @@ structure Impl where
   ctr : Option Nat              -- `_cur_req_id` (`None` disables ids)
   cp : List Char                -- `_reqid_connection_part`
 
+/-- request adapters whose `process_req_args` touches the headers: the authenticating adapters of the
+package, and two adapters of the caller's that propagate an id (set it always / set it unless the
+request already has one in any capitalisation) -/
+inductive Adapter where
+  | auth (v : List Char)
+  | setId (v : List Char)
+  | politeId (v : List Char)
+  deriving DecidableEq, Repr
+
 /-- a public connection object -/
 structure Conn where
   impl : Nat                    -- index of its `conn_impl`
-  auths : List (List Char)      -- `Authorization` values set by the adapters of its chain, own adapters first
+  adapters : List Adapter       -- adapters of its chain that touch headers, own adapters first
 
 /-- `RequestArguments.__init__`: `headers.copy() if headers else {}` or (a change of the source)
 `headers or {}`, which keeps the caller's object -/
@@ -248,7 +257,7 @@ def World.empty : World := { impls := [], conns := [], dicts := [] }
 
 def World.newImpl (w : World) (cp : List Char) (ids : Bool) : World × Nat :=
   ({ w with impls := w.impls ++ [{ ctr := if ids then some 0 else none, cp := cp }],
-            conns := w.conns ++ [{ impl := w.impls.length, auths := [] }] }, w.conns.length)
+            conns := w.conns ++ [{ impl := w.impls.length, adapters := [] }] }, w.conns.length)
 
 def World.newDict (w : World) (hs : Headers) : World × Nat :=
   ({ w with dicts := w.dicts ++ [hs] }, w.dicts.length)
@@ -256,17 +265,17 @@ def World.newDict (w : World) (hs : Headers) : World × Nat :=
 /-- a derived connection of class `cls`: it shares the implementation object of its parent when the
 constructor of the class passes `conn_data` on unchanged (`g.kinds`, read from the source);
 a constructor that does not builds an implementation object of its own (fresh counter) -/
-def World.wrap (g : Cfg) (w : World) (c : Nat) (cls : List Char) (auth : Option (List Char)) :
+def World.wrap (g : Cfg) (w : World) (c : Nat) (cls : List Char) (ad : Option Adapter) :
     Except Err (World × Nat) :=
   match w.conns[c]?, g.kinds.lookup cls with
   | some cn, some true =>
-    .ok ({ w with conns := w.conns ++ [{ impl := cn.impl, auths := auth.toList ++ cn.auths }] },
+    .ok ({ w with conns := w.conns ++ [{ impl := cn.impl, adapters := ad.toList ++ cn.adapters }] },
          w.conns.length)
   | some cn, some false =>
     match w.impls[cn.impl]? with
     | some im =>
       .ok ({ w with impls := w.impls ++ [{ ctr := im.ctr.map fun _ => 0, cp := im.cp }],
-                    conns := w.conns ++ [{ impl := w.impls.length, auths := auth.toList ++ cn.auths }] },
+                    conns := w.conns ++ [{ impl := w.impls.length, adapters := ad.toList ++ cn.adapters }] },
            w.conns.length)
     | none => .error .indexError
   | _, _ => .error .indexError
@@ -282,6 +291,19 @@ def applyAuths : List (List Char) → Headers → Option Headers
   | [], hs => some hs
   | a :: rest, hs =>
     if hs.any (fun kv => kv.1 == authName) then none else applyAuths rest (setHeader hs authName a)
+
+def idAdapterName : List Char := "X-Request-ID".toList
+def idAdapterLower : List Char := "x-request-id".toList
+
+/-- `for adapter in adapters: adapter.process_req_args(req_args)` as far as headers go -/
+def applyAdapters : List Adapter → Headers → Option Headers
+  | [], hs => some hs
+  | .auth a :: rest, hs =>
+    if hs.any (fun kv => kv.1 == authName) then none else applyAdapters rest (setHeader hs authName a)
+  | .setId v :: rest, hs => applyAdapters rest (setHeader hs idAdapterName v)
+  | .politeId v :: rest, hs =>
+    if hs.any (fun kv => kv.1.map lowerAscii == idAdapterLower) then applyAdapters rest hs
+    else applyAdapters rest (setHeader hs idAdapterName v)
 
 /-- step "4. data": a json body brings its content type unless the caller named one (exact spelling) -/
 def addContentType (hasData : Bool) (hs : Headers) : Headers :=
@@ -324,7 +346,7 @@ def World.request (g : Cfg) (w : World) (c : Nat) (src : HdrSrc) (hasData : Bool
       match src.read w with
       | none => .error .indexError
       | some hs0 =>
-        match applyAuths cn.auths hs0 with
+        match applyAdapters cn.adapters hs0 with
         | none => .error .assertion
         | some hs1 =>
           match w.idBranch g cn.impl im hs1 with
@@ -362,9 +384,9 @@ def assembleAll (g : Cfg) (cp : List Char) : List (List ParReq) → List (List N
   | _, _ => none
 
 /-- concurrent requests of several threads through connections that all share implementation `i`,
-under a schedule of the instructions of `_generate_request_id` (plain GET requests: no body; the
-`Authorization` header of the adapters does not take part; caller dicts are read, never written) -/
-def World.par (g : Cfg) (w : World) (i : Nat) (threads : List (List ParReq))
+under a schedule of the instructions of `_generate_request_id`; `threads` holds the header dicts as the
+adapters left them (plain GET requests: no body; caller dicts are read, never written) -/
+def World.parCore (g : Cfg) (w : World) (i : Nat) (threads : List (List ParReq))
     (sched : List (Nat × Nat)) : Except Err (World × List (List Headers)) :=
   match w.impls[i]? with
   | none => .error .indexError
@@ -381,5 +403,20 @@ def World.par (g : Cfg) (w : World) (i : Nat) (threads : List (List ParReq))
           match assembleAll g im.cp threads nums with
           | none => .error .assertion
           | some out => .ok ({ w with impls := setImpl w.impls i { im with ctr := some n' } }, out)
+
+/-- the adapters of the connection a request goes through, applied to its headers -/
+def adaptReq (w : World) (r : ParReq) : Except Err ParReq :=
+  match w.conns[r.1]? with
+  | none => .error .indexError
+  | some cn =>
+    match applyAdapters cn.adapters r.2 with
+    | none => .error .assertion
+    | some hs => .ok (r.1, hs)
+
+def World.par (g : Cfg) (w : World) (i : Nat) (threads : List (List ParReq))
+    (sched : List (Nat × Nat)) : Except Err (World × List (List Headers)) :=
+  match threads.mapM (fun t => t.mapM (adaptReq w)) with
+  | .error e => .error e
+  | .ok threads' => w.parCore g i threads' sched
 
 end Interleave
